@@ -40,6 +40,8 @@ CLAIMS = {
  "C09": ("proof", "Allocation contracts hand out only entries of the unallocated table; handleFIPAssign moves only a free IP to allocated and refuses an allocated one; ConfigurePool builds disjoint tables whose free entries are blank.", "watch timing not decided."),
  "C19": ("proof", "Lock discipline of declared guarded fields: for every function of pkg/ipam/floatingip/ipam_crd.go, every read of crdIpam.allocatedFIPs / unallocatedFIPs / FloatingIPs (the field and the map/slice contents) happens with cacheLock held in some mode and every write with the write lock held, or on an object allocated by the very call (constructor); the same for FloatingIPPlugin.nodeSubnet under nodeSubnetLock (floatingip_plugin.go, with the cache fill in ipam.go inlined into its two callers) and crdKey.keyToGVR under its mutex (crdkey.go). Lock obligations and the loop invariants about the lock state, all discharged. A race of ConfigurePool's deferred log was found (race detector replay) and repaired (fix: 28f1946).",
          "This is NOT race freedom of the process: only the five declared guarded fields are covered; the other anchored files (crdcache, cniutil, galaxy server, portmapping, policy) are not swept; FloatingIPPlugin.Run (goroutine start) is outside the subset and listed as undecided; publication of objects, goroutine creation and the happens-before of channels are not modelled; helper functions called under the lock carry the lock as a stated precondition."),
+ "C12": ("proof", "Request path of pkg/api/cniutil on the real code, against a ghost trace of plugin invocations (CniN/CniCmd/CniIf, recorded at the exec boundary invoke.ExecPlugin*): a successful CmdAdd has invoked exactly the plugins of the given networks with ADD, in the given order, the i-th on the interface of the i-th entry; CmdAdd never issues an ADD after a DEL (rollback only deletes); CmdAdd leaves every configuration map that existed before the request unchanged (frame over all map[string]interface{} objects: isolation of requests from each other - a genuine defect here, prevResult stored in the shared static configuration, was found and repaired, fix: 5fda140); CmdDel for a container without saved state invokes nothing and succeeds (repeated DEL); a successful CmdDel has invoked the saved networks with DEL in reverse file order and consumed the state; CmdDel only ever issues DEL and leaves the earlier trace alone; DelegateAdd/DelegateDel invoke at most one plugin, with the command and interface they were given. All inputs: any number of networks, any plugin failure pattern (plugin results are unconstrained).",
+         "The state file (saveNetworkInfo/consumeNetworkInfo: file I/O and the JSON round trip of []*NetworkInfo) and the plugin exec are ASSUMED boundaries (ghost SavedIDs/SavedLen/SavedIf). NOT under contract: which DELs are retried after a partial DEL failure (only that state is re-saved by the real code is executed, not specified), the exact DEL sequence of a rollback (plugins may fail before exec), network selection and interface naming in pkg/galaxy (resolveNetworks), concurrency of requests."),
  "C17": ("proof", "Safety half of the GC property: (*flannelGC).shouldCleanup answers true only if the runtime reports the container gone (docker: not-found error; containerd: gRPC NotFound) or exited/dead (docker) or its sandbox not ready (containerd), and never on any other inspect error; removeLeakyStateFile/removeLeakyIPFile remove exactly the named file; one cleanupGCDirs pass removes a state file / cleans a port mapping only for an entry name that shouldCleanup approved in that pass (ghost sets Removed and PortsCleaned against the runtime oracle). All inputs: any directory listing, any mix of container states, any inspect error.",
          "The runtime is an ASSUMED oracle (pkg/api/docker/zz_contracts_verif.go: an answer reflects ghost truth, not-found is reported by the dedicated error); os.Remove/ReadDir/filepath are assumed (names are strings, Base(Join(d,n)) == n). cleanupIP (owner read from the file content), cleanupVeth (netlink) and the liveness half ('everything is removed within a bounded number of rounds') are NOT claimed; the containerd branch's pod lookup is proved only up to 'sandbox not ready'."),
  "C18": ("proof", "Zero-annotation safety sweep (plus surface invariants as typeinv/requires): for every function of the listed files (pkg/utils/nets/ip.go, pkg/ipam/floatingip/{floatingip.go,ipam_crd.go}, pkg/utils/page/page.go, pkg/ipam/schedulerplugin/util/utils.go, pkg/api/k8s/k8s.go) that is inside the supported subset, every generated no-panic obligation is discharged for all inputs satisfying the stated surface invariant: nil dereference, index/slice bounds, nil-map write, failed type assertion, division by zero, explicit panic, signed 64-bit overflow, callee preconditions, and termination of loops that carry a measure. "
